@@ -149,15 +149,16 @@ fn tid(b: u8) -> TransactionId {
     TransactionId::from([b; 12])
 }
 
+#[derive(Clone, Copy)]
 struct Entry {
-    exp_ns: u64, // expiry, ns after the epoch below
+    exp: Instant, // expiry
     id: u8,
 }
 
 fn c11_queue<const N: usize, const OP: u8>() {
     let epoch = instant_at(2000, 0);
     let mut q = StunMessageTimeout::default();
-    let mut ents: [Entry; 3] = [Entry { exp_ns: 0, id: 0 }, Entry { exp_ns: 0, id: 0 }, Entry { exp_ns: 0, id: 0 }];
+    let mut ents: [Entry; 3] = [Entry { exp: epoch, id: 0 }; 3];
     let mut i = 0;
     while i < N {
         let at = any_offset(100);
@@ -165,66 +166,62 @@ fn c11_queue<const N: usize, const OP: u8>() {
         let id: u8 = kani::any();
         kani::assume(id < 4);
         q.add(epoch + at, to, tid(id));
-        ents[i] = Entry { exp_ns: ns_of(at) + ns_of(to), id };
+        ents[i] = Entry { exp: (epoch + at) + to, id };
         i += 1;
     }
-    let now = any_offset(250);
-    let now_ns = ns_of(now);
-    let t = epoch + now;
-    let op: u8 = OP;
-    if op == 0 {
+    let t = epoch + any_offset(250);
+    if OP == 0 {
         // next_timeout: names an entry with minimal expiry; remaining time saturates at zero
         let r = q.next_timeout(t);
         if N == 0 {
             assert!(r.is_none());
         } else {
-            let mut min = u64::MAX;
-            let mut k = 0;
+            let mut min = ents[0].exp;
+            let mut k = 1;
             while k < N {
-                if ents[k].exp_ns < min {
-                    min = ents[k].exp_ns;
+                if ents[k].exp < min {
+                    min = ents[k].exp;
                 }
                 k += 1;
             }
             match r {
                 None => assert!(false, "C11: a non-empty queue has a next deadline"),
                 Some((id, d)) => {
-                    let want = if min > now_ns { min - now_ns } else { 0 };
-                    assert!(ns_of(d) == want, "C11: remaining time = earliest expiry - now, zero if overdue");
+                    let want = if min > t { min - t } else { Duration::ZERO };
+                    assert!(d == want, "C11: remaining time = earliest expiry - now, zero if overdue");
                     let mut named = false;
                     let mut k = 0;
                     while k < N {
-                        if ents[k].exp_ns == min && ents[k].id == id.as_bytes()[0] {
+                        if ents[k].exp == min && ents[k].id == id.as_bytes()[0] {
                             named = true;
                         }
                         k += 1;
                     }
                     assert!(named, "C11: the id named has the earliest deadline");
-                    kani::cover!(want == 0);
-                    kani::cover!(want > 0);
+                    kani::cover!(want == Duration::ZERO);
+                    kani::cover!(want > Duration::ZERO);
                 }
             }
         }
-    } else if op == 1 {
-        // check: pops exactly the entries with expiry <= t, in deadline order
+    } else if OP == 1 {
+        // check: pops exactly the entries with expiry <= t
         let v = q.check(t);
         let mut due = 0usize;
         let mut k = 0;
         while k < N {
-            if ents[k].exp_ns <= now_ns {
+            if ents[k].exp <= t {
                 due += 1;
             }
             k += 1;
         }
         assert!(v.len() == due, "C11: check() pops exactly the due entries");
-        // every popped id is the id of a due entry (multiset check for N <= 3 via counts per id)
         let mut idv = 0u8;
         while idv < 4 {
             let mut a = 0usize;
             let mut b = 0usize;
             let mut k = 0;
             while k < N {
-                if ents[k].exp_ns <= now_ns && ents[k].id == idv {
+                if ents[k].exp <= t && ents[k].id == idv {
                     a += 1;
                 }
                 k += 1;
@@ -239,13 +236,12 @@ fn c11_queue<const N: usize, const OP: u8>() {
             assert!(a == b, "C11: popped ids are exactly the due ids");
             idv += 1;
         }
-        // what is left is not due
-        let r = q.next_timeout(t);
-        match r {
-            Some((_, d)) => assert!(ns_of(d) > 0 && due < N),
+        match q.next_timeout(t) {
+            Some((_, d)) => assert!(d > Duration::ZERO && due < N, "C11: what is left is not due"),
             None => assert!(due == N),
         }
         kani::cover!(due > 0 && due < N);
+        kani::cover!(due == N && N > 0);
         std::mem::forget(v);
     } else {
         // remove(id): removes all and only that id
@@ -287,9 +283,9 @@ c11_inst! {
     c11_next_n1 = (1, 0) unwind 6;
     c11_next_n2 = (2, 0) unwind 6;
     c11_next_n3 = (3, 0) unwind 6;
-    c11_check_n1 = (1, 1) unwind 6;
-    c11_check_n2 = (2, 1) unwind 6;
-    c11_check_n3 = (3, 1) unwind 6;
+    c11_check_n1 = (1, 1) unwind 8;
+    c11_check_n2 = (2, 1) unwind 8;
+    c11_check_n3 = (3, 1) unwind 9;
     c11_remove_n1 = (1, 2) unwind 13;
     c11_remove_n2 = (2, 2) unwind 13;
 }
